@@ -250,16 +250,94 @@ class Loop:
         idx_name = '__i%d' % ordinal
         if is_for:
             st.env[idx_name] = vint(0)
-        # 1. invariant at entry
+        # 1. invariant at entry (a head marker first: an enclosing loop may have been through
+        # this loop before on the same path, and 'events since the head' must not see that)
+        st.trace.append(('loop-head', ordinal))
         L = self.locals_ns(eng, st, {'i': z3.IntVal(0)} if is_for else None)
         eng.oblige(st, 'loop%d.inv-entry' % ordinal, 'inv-entry', self.inv(eng.make_ctx(st), L), s)
-        # 2. havoc
+        # 2.-4. havoc, assume, one arbitrary iteration.  A loop-assigned local that is None at
+        # entry and has no declared kind is havoc'd over {None} + the scalar kinds the body is
+        # seen to leave in it (found by dry runs whose obligations are discarded): one run of
+        # the arbitrary iteration per combination.
         names = self.assigned_names(s.body) | ({idx_name} if is_for else set())
         if is_for:
             names |= self.assigned_names([ast.Assign(targets=[s.target], value=ast.Constant(0))])
+        opt = [n for n in sorted(names) if self.kinds.get(n) is None and n != idx_name
+               and st.env.get(n) is not None and st.env[n].k == 'none']
+        alts = {n: ['none'] for n in opt}
+        if opt:
+            import itertools
+            for _round in range(3):
+                grew = False
+                for combo in itertools.product(*[alts[n] for n in opt]):
+                    ends = []
+                    mark = len(eng.obls)
+                    try:
+                        self._once(eng, s, st, ordinal, is_for, seqv, idx_name, names,
+                                   dict(zip(opt, combo)), ends)
+                    finally:
+                        del eng.obls[mark:]
+                    for e in ends:
+                        for n in opt:
+                            v = e.env.get(n)
+                            if v is None or v.k in alts[n]:
+                                continue
+                            if v.k not in ('int', 'real', 'bool', 'none'):
+                                raise Unsupported(s, 'loop-assigned local %s of kind %s needs a declared kind' % (n, v.k))
+                            alts[n].append(v.k)
+                            grew = True
+                if not grew:
+                    break
+            combos = [dict(zip(opt, c)) for c in itertools.product(*[alts[n] for n in opt])]
+        else:
+            combos = [{}]
+        carried = [n for n in opt if len(alts[n]) > 1]
+        if not carried:
+            for combo in combos:
+                outs.extend(self._once(eng, s, st, ordinal, is_for, seqv, idx_name, names, combo, None))
+            return outs
+        # The body carries values in locals the contract knows nothing about (None at entry,
+        # a number later).  (a) Inductive step over every kind combination of them: a proof if
+        # it goes through; if not, the invariant simply does not speak about them, so these
+        # obligations get a name of their own (never among the required ones: undecided, not a
+        # violation).  (b) The first iterations from the loop entry with these locals carried
+        # exactly like every other local (object fields havoc'd under the invariant at each head,
+        # i.e. any environment): an obligation failing there fails on an execution of 1..3 iterations.
+        tag = '[carried:%s]' % ','.join(carried)
+        for combo in combos:
+            outs.extend(self._once(eng, s, st, ordinal, is_for, seqv, idx_name, names, combo, None,
+                                   suffix=tag))
+        level = [st]
+        for _depth in range(3):
+            nxt = []
+            for st_k in level[:8]:
+                mark = len(eng.obls)
+                try:
+                    self._once(eng, s, st_k, ordinal, is_for, seqv, idx_name, names, {}, nxt,
+                               keep=set(names))
+                except Unsupported:
+                    # best-effort refutation only: a later iteration outside the subset ends
+                    # the chain, what the earlier ones showed stands
+                    del eng.obls[mark:]
+            level = nxt
+        return outs
+
+    def _once(self, eng, s, st, ordinal, is_for, seqv, idx_name, names, optkinds, ends,
+              suffix='', keep=()):
+        prev = getattr(eng, 'name_suffix', '')
+        eng.name_suffix = prev + suffix
+        try:
+            return self._once1(eng, s, st, ordinal, is_for, seqv, idx_name, names, optkinds, ends, keep)
+        finally:
+            eng.name_suffix = prev
+
+    def _once1(self, eng, s, st, ordinal, is_for, seqv, idx_name, names, optkinds, ends, keep):
+        outs = []
         st = st.fork()
         for n in sorted(names):
-            kind = self.kinds.get(n)
+            if n in keep:
+                continue
+            kind = self.kinds.get(n) or optkinds.get(n)
             cur = st.env.get(n)
             if kind is None:
                 if cur is None:
@@ -330,6 +408,8 @@ class Loop:
                     for bo in eng.exec_block(s.body, po[1]):
                         if bo[0] in ('next', 'cont'):
                             st3 = bo[1]
+                            if ends is not None:
+                                ends.append(st3)
                             L3 = self.locals_ns(eng, st3, {'i': st3.env[idx_name].z} if is_for else None)
                             eng.oblige(st3, 'loop%d.inv-preserved' % ordinal, 'inv-preserved',
                                        self.inv(eng.make_ctx(st3), L3), s)
